@@ -8,6 +8,7 @@ creates the real TrackPreparationActor / TaskExecutionActor / Worker actors), pl
 Race case (JSON):
   schedule     list of elements. leaf = {"name", "clients", "mode": "iterations"|"time", "warmup_iterations"|None, "iterations",
                "warmup_time_period"|None, "time_period", "throughput": None|{"kind","value","unit"}, "requests": [request specs],
+               "op_name": name of the task's operation (default <name>-op),
                "stride", "completes_parent": bool, "any_completes_parent": bool}
                parallel = {"parallel": [leaf, ...], "clients": cap | None, "completed_by": name | "any" | None}
   hosts        list of core counts; one entry = only "localhost"; several = ip addresses, the first being the coordinator's
@@ -70,7 +71,8 @@ def build_leaf(spec):
             params["target-interval"] = tp["value"]
     if spec.get("tolerant"):
         params["ignore-response-error-level"] = "non-fatal"
-    op = track.Operation(spec["name"] + "-op", spec.get("op_type", "sim-op"), params={"task": spec["name"]}, param_source="sim-source")
+    # (two tasks may run operations of the same name: one operation referenced twice, or inline operations without a name)
+    op = track.Operation(spec.get("op_name", spec["name"] + "-op"), spec.get("op_type", "sim-op"), params={"task": spec["name"]}, param_source="sim-source")
     return track.Task(
         spec["name"],
         op,
